@@ -62,11 +62,12 @@ const (
 	opRefillA
 	opRunOddFirst
 	opRunOddLast
+	opScribbleOutputs
 	nHistOps
 )
 
 var histOpNames = []string{"Run(A)", "Run(B)", "Run(fresh copy of A)", "RunFail(wrong rank)", "RunFail(missing input)", "Run(outputs of previous Run fed back)",
-	"caller overwrites the contents of A in place (A <-> B values)", "Run(A with its first tensor one longer on the last axis; outcome not judged)", "Run(A with its last tensor one longer on the last axis; outcome not judged)"}
+	"caller overwrites the contents of A in place (A <-> B values)", "Run(A with its first tensor one longer on the last axis; outcome not judged)", "Run(A with its last tensor one longer on the last axis; outcome not judged)", "caller overwrites the contents of the tensors the previous Run returned"}
 
 func sameShapes(a, b map[string]*ref.T) bool {
 	if len(a) != len(b) {
@@ -100,6 +101,7 @@ func (s *subject) applicable() []int {
 			ops = append(ops, opRunOddLast)
 		}
 	}
+	ops = append(ops, opScribbleOutputs)
 	return ops
 }
 
@@ -212,6 +214,58 @@ func (s *subject) runHistory(seq []int) (v *hx.Violation, states map[uint64]bool
 			sh[ax]++
 			feed[ks[ti]] = hx.ToG(perturb(&ref.T{DT: s.FeedA[ks[ti]].DT, Shape: sh, V: make([]uint64, ref.NElem(sh))}, 57))
 			unjudged = true
+		}
+		if op == opScribbleOutputs {
+			// the tensors a Run returned belong to the caller: overwriting them must not reach the model or later Runs
+			// (an output that is a caller input passed through is the caller's own tensor: skipped)
+			if lastOuts == nil {
+				continue
+			}
+			for _, o := range sortedKeys(lastOuts) {
+				t := lastOuts[o]
+				if t == nil {
+					continue
+				}
+				own := false
+				for _, in := range TA {
+					if in == t {
+						own = true
+					}
+				}
+				for _, in := range TB {
+					if in == t {
+						own = true
+					}
+				}
+				if own {
+					continue
+				}
+				if rt, e := hx.FromG(t); e == nil {
+					for i := range rt.V {
+						rt.V[i] = ^rt.V[i] & (1<<uint(rt.DT.Bits()) - 1)
+						if rt.DT == ref.Bool {
+							rt.V[i] &= 1
+						}
+					}
+					hx.RefillG(t, rt)
+				}
+			}
+			lastOuts = nil // they no longer hold a Run's result: nothing to feed back
+			now, d := snapAll()
+			states[d] = true
+			for k, b := range base {
+				if diff := b.Diff(now[k]); diff != "" {
+					kind := "mutated-input"
+					if k[0] == 'W' {
+						kind = "mutated-weight"
+					}
+					return mk(kind, fmt.Sprintf("step %d (%s) of %v: %s changed when the caller overwrote a returned tensor (the output aliases it): %s", step, histOpName(op), seqNames(seq), k, diff)), states, transitions
+				}
+			}
+			if d != d0 {
+				return mk("mutated-weight", fmt.Sprintf("step %d (%s) of %v: the model proto changed when the caller overwrote a returned tensor (the output aliases the model's bytes)", step, histOpName(op), seqNames(seq))), states, transitions
+			}
+			continue
 		}
 		switch op {
 		case opRefillA:
@@ -543,7 +597,7 @@ func checkC02(c *hx.Checker) {
 		depth = 5
 	}
 	c.Rule = fmt.Sprintf("subjects: (i) every registered operator as a single-node model under every role assignment of its tensor inputs (caller input / initializer; for operators with > 3 tensor inputs: none, all, each single one, all-but-one as initializer), (ii) compositions ConstantOfShape->GRU.initial_h and Constant->Conv.bias->ArgMax, and nodes whose inputs all name one and the same caller tensor / weight (Gemm{transA}, Gemm{transB}, MatMul, Add, Mul, Sub, Concat, PRelu), (iii) sample models mlp, scaler, gru (thorough: + ndm). "+
-		"history alphabet on ONE loaded Model with persistent caller tensor objects A and B (B = other values; other batch size for the sample models): Run(A), Run(B), Run(fresh copy of A), RunFail(wrong rank), RunFail(missing input), Run(state outputs of the previous Run fed back as the very same tensor objects), the caller overwriting the contents of the A tensor objects in place (A then carries B's values and vice versa), Run with the first / last caller tensor one element longer on its last axis (single-node models declare symbolic dims, so the call reaches the operator and typically fails inside it; its outcome is not judged); additionally every caller tensor x every axis made one element longer, embedded in 5-7 short histories per (tensor, axis). "+
+		"history alphabet on ONE loaded Model with persistent caller tensor objects A and B (B = other values; other batch size for the sample models): Run(A), Run(B), Run(fresh copy of A), RunFail(wrong rank), RunFail(missing input), Run(state outputs of the previous Run fed back as the very same tensor objects), the caller overwriting the contents of the A tensor objects in place (A then carries B's values and vice versa), Run with the first / last caller tensor one element longer on its last axis (single-node models declare symbolic dims, so the call reaches the operator and typically fails inside it; its outcome is not judged), the caller overwriting the contents of the tensors the previous Run returned (they are the caller's; nothing of the model may alias them); additionally every caller tensor x every axis made one element longer, embedded in 5-7 short histories per (tensor, axis). "+
 		"ALL sequences of depth <= %d are executed, each on a freshly loaded model. After every operation: outputs equal the reference evaluation of the model for these inputs AND are bit-identical to the first Run on the same values in this history; deep snapshots (shape, strides, dtype, flags, every element bit) of A, B and of every weight tensor plus the marshalled model proto equal their load-time value. "+
 		"states = distinct (weights + proto + caller tensors) digests observed (1 per subject when the property holds, 2 with the caller's own in-place refill), transitions = operations executed; non-trivial = histories with >= 2 operations", depth)
 	c.Assumptions = []string{"oracle for output values: reference interpreter over the same model bytes (refmodel.go), so state leaking through package-level variables cannot contaminate the expectation",
